@@ -341,6 +341,17 @@ fn plan_renames_with_conflicts_and_params(
         }
     });
 
+    // Search mode (empty replacement) only lists the entries whose name contains the term: the
+    // "new names" are the old ones with the term removed and say nothing about real collisions
+    if !search.is_empty() && replace.is_empty() {
+        return Ok(RenamePlan {
+            renames: collected_renames,
+            conflicts: Vec::new(),
+            case_insensitive_fs,
+            requires_staging: false,
+        });
+    }
+
     // Detect conflicts
     let mut conflicts = Vec::new();
     let mut target_map: HashMap<PathBuf, Vec<PathBuf>> = HashMap::new();
